@@ -19,6 +19,48 @@ from ..tables import LOOPFRESH_TABLE
 from .defuse import DefUse
 
 
+def signature(fi, du, var):
+    """name-independent description of a local: the set of its defining statements with the local itself written
+    as `$` and every other local of the function as `_` (attributes, calls, constants and globals stay)"""
+    import copy
+
+    locals_ = set(du.defs) | set(fi.params)
+    out = set()
+
+    def abstract(st):
+        t = copy.deepcopy(st)
+        for x in ast.walk(t):
+            if isinstance(x, ast.Name):
+                x.id = "$" if x.id == var else "_" if x.id in locals_ else x.id
+        return ast.unparse(t)[:80]
+
+    for dn, _v, _how in du.defs.get(var, []):
+        st = dn.ast if dn.kind not in ("for", "with") else (dn.ast.target if dn.kind == "for" else None)
+        if st is not None:
+            out.add(abstract(st))
+    # the statements that read it (tests, calls it is handed to, containers it is put into)
+    for n in du.cfg.nodes:
+        a = n.ast
+        if a is None or n.kind in ("handler", "with"):
+            continue
+        root = a.iter if n.kind == "for" else a
+        if isinstance(root, (ast.For, ast.While, ast.If, ast.With, ast.Try, ast.FunctionDef)):
+            continue
+        if any(isinstance(x, ast.Name) and x.id == var for x in ast.walk(root)):
+            out.add(abstract(root))
+    return tuple(sorted(out))
+
+
+def resolve(fi, du, name, sig):
+    """locals of fi playing the role the table calls *name*: the one with that name if its signature matches (or no
+    signature is recorded), else every local whose signature equals the recorded one"""
+    if name in du.defs:
+        return [name]  # the recorded name is still a local: it is the one meant, however its statements changed
+    if sig is None:
+        return []
+    return [v for v in du.defs if signature(fi, du, v) == tuple(sig)]
+
+
 def _reads(node, var):
     a = node.ast
     if a is None:
@@ -49,7 +91,14 @@ def run_loopfresh(p: Project, clause: str, prop: str, floor: int) -> RuleResult:
         du = DefUse(fi)
         cfg = du.cfg
         heads = [h for h in cfg.nodes if h.kind in ("for", "while") or (h.kind == "test" and isinstance(getattr(h, "stmt", None), ast.While))]
-        for var in vars_:
+        resolved = []
+        for entry in vars_:
+            name, sig = (entry, None) if isinstance(entry, str) else entry
+            got = resolve(fi, du, name, sig)
+            if not got:
+                missing.append(f"{q}: no local plays the role of `{name}`")
+            resolved.extend(got)
+        for var in resolved:
             defs = [dn for dn, _v, _how in du.defs.get(var, [])]
             if not defs:
                 missing.append(f"{q}: no definition of `{var}`")
